@@ -243,8 +243,10 @@ func (in *Interp) rtCall(fn *ssa.Function, a []Value) Value {
 			// quiescence is observed by the harness: everything before happens-before what follows
 			for _, g := range p.sched.gs {
 				in.g.vc = in.g.vc.join(g.vc)
+				in.g.vcFull = in.g.vcFull.join(g.vcFull)
 			}
 			in.g.vc = in.g.vc.tick(in.g.id)
+			in.g.vcFull = in.g.vcFull.tick(in.g.id)
 		}
 		return nil
 	case "MapOrder":
@@ -253,6 +255,9 @@ func (in *Interp) rtCall(fn *ssa.Function, a []Value) Value {
 	case "Sched":
 		p.sched.budget = int(num(0))
 		p.sched.explore = in.p.simp(a[1].(BoolV).b).k == BTrue
+		return nil
+	case "SchedPolicy":
+		p.sched.reverse = num(0) == 1
 		return nil
 	case "SelectChoice":
 		p.selectChoice = in.p.simp(a[0].(BoolV).b).k == BTrue
